@@ -168,6 +168,10 @@ MUTANTS = [
     ("verify-number-unreachable-again", "C07", "src/verify_ast.rs",
      "                        #[cfg(not(feature = \"luau\"))]\n                        // Cannot normalise (e.g. hex float, integer wider than 64 bits): compare the text as written\n                        Err(_) => text.to_string(),",
      "                        #[cfg(not(feature = \"luau\"))]\n                        Err(_) => unreachable!(),", "panic-on-unconvertible-text"),
+    ("range-start-inclusive", "C09", "src/context.rs",
+     "if node_start.bytes() < start_bound =>", "if node_start.bytes() <= start_bound =>", "range-test"),
+    ("range-end-uses-start-position", "C09", "src/context.rs",
+     "match (range.end, node.end_position()) {", "match (range.end, node.start_position()) {", "range-test"),
     ("regex-drop-z", "C04", "src/formatters/general.rs",
      'r#"^[^\\n\\r"\'0-9\\\\abfnrtuvxz]$"#', 'r#"^[^\\n\\r"\'0-9\\\\abfnrtuvx]$"#', "escape-dropped=z"),
     ("group-line-distance", "C12", "src/sort_requires.rs",
